@@ -23,3 +23,27 @@ CLAIMS = {
 }
 
 NOT_APPLICABLE = {}
+
+CLAIMS["C06"] = {
+    "technique": "effect analysis (read-set ⊆ hash-set) by path-sensitive "
+                 "partial evaluation of every registered recipe's compute "
+                 "function under a presence lattice; registry folded from "
+                 "source; CFG guard dominance for the cache protocol",
+    "text": "For each of the 33 registered ancillary-feature recipes "
+            "(registry folded from the registration code, cross-validated "
+            "against the imported package in the thorough tier) the compute "
+            "function is partially evaluated on an abstract dataset; every "
+            "feature / configuration read that can influence the result or "
+            "decide between result and exception must be a hash ingredient "
+            "(req_features, req_config or flow into a non-boolean req_func "
+            "result) unless its presence is determined while the recipe is "
+            "selected. Holds for every history of setting changes at once. "
+            "Plus: cache used only under equal hash and current "
+            "availability, availability/access source agreement, scenario "
+            "precedence, digest completeness, plugin/temporary features.",
+    "note": "Decides staleness through the hash mechanism only; does not "
+            "decide numerical equality with a fresh dataset nor formulas. "
+            "len(mm) and non-feature attributes are not tracked. Exceptions "
+            "raised by external helpers are not modelled. md5 collision "
+            "freedom assumed.",
+}
